@@ -789,6 +789,7 @@ func (r *FnRun) preRegisterTracksIn(fr *Frame, root *ssa.Function) {
 	if c == nil || len(c.Tracks) == 0 {
 		return
 	}
+	seenFn := map[*ssa.Function]bool{}
 	var visit func(fn *ssa.Function, depth int)
 	visit = func(fn *ssa.Function, depth int) {
 		for _, b := range fn.Blocks {
@@ -809,6 +810,19 @@ func (r *FnRun) preRegisterTracksIn(fr *Frame, root *ssa.Function) {
 					continue
 				}
 				names := fr.calleeNames(cc)
+				matched := false
+				for _, tr := range c.Tracks {
+					if nameMatches(names, tr.Callee) {
+						matched = true
+					}
+				}
+				if !matched && depth < 2 {
+					// a small module wrapper that will be inlined may contain the tracked call
+					if sc := cc.StaticCallee(); sc != nil && sc.Pkg != nil && len(sc.Blocks) > 0 && len(sc.Blocks) <= 8 && r.Eng.InModule(sc.Pkg.Pkg) && !seenFn[sc] {
+						seenFn[sc] = true
+						visit(sc, depth+1)
+					}
+				}
 				for _, tr := range c.Tracks {
 					if !nameMatches(names, tr.Callee) {
 						continue
@@ -842,9 +856,19 @@ func (r *FnRun) preRegisterTracksIn(fr *Frame, root *ssa.Function) {
 			}
 		}
 	}
-	visit(root, 0)
+	var deep func(fn *ssa.Function, depth int)
+	deep = func(fn *ssa.Function, depth int) {
+		visit(fn, depth)
+		if depth < 3 {
+			// bodies of range-over-func loops (and other literals executed inline) log into the same call log
+			for _, af := range fn.AnonFuncs {
+				deep(af, depth+1)
+			}
+		}
+	}
+	deep(root, 0)
 	if root != fr.Fn {
-		visit(fr.Fn, 0)
+		deep(fr.Fn, 0)
 	}
 }
 
